@@ -189,6 +189,10 @@ fn ext_checks<E: Field + CyclotomicMultSubgroup, F: PrimeField>(t: &mut Tally, n
     let q = (p as u128).pow(k as u32);
     for (i, a) in els.iter().enumerate() {
         let ca = coords(a);
+        // zero/one predicates agree with comparison against the constants (C19)
+        let (z, o) = (ca.iter().all(|c| val(c) == 0), val(&ca[0]) == 1 % p && ca[1..].iter().all(|c| val(c) == 0));
+        t.check(a.is_zero() == z && (*a == E::ZERO) == z && (*a == E::zero()) == z, || format!("{name}: is_zero / == ZERO on {a}"));
+        t.check(a.is_one() == o && (*a == E::ONE) == o && (*a == E::one()) == o, || format!("{name}: is_one / == ONE on {a}"));
         t.check(coords(&a.square()) == schoolbook(&ca, &ca, beta), || format!("{name}: ({a})^2"));
         match a.inverse() {
             None => t.check(a.is_zero(), || format!("{name}: inverse({a}) = None")),
